@@ -290,11 +290,12 @@ def build_corpus(tier):
     return c
 
 
-def write_crate(dirp, progs, name):
+def write_crate(dirp, progs, name, member=False):
     os.makedirs(os.path.join(dirp, 'src'), exist_ok=True)
     with open(os.path.join(dirp, 'Cargo.toml'), 'w') as f:
-        f.write(f'[package]\nname = "{name}"\nversion = "0.0.0"\nedition = "2021"\n\n[lib]\npath = "src/lib.rs"\n\n[dependencies]\ngeneric-array = {{ path = "{REPO}", features = ["alloc"] }}\n\n[profile.dev]\ndebug = false\nincremental = false\n\n[workspace]\n')
-    shutil.copy(os.path.join(REPO, 'Cargo.lock'), os.path.join(dirp, 'Cargo.lock'))
+        f.write(f'[package]\nname = "{name}"\nversion = "0.0.0"\nedition = "2021"\n\n[lib]\npath = "src/lib.rs"\n\n[dependencies]\ngeneric-array = {{ path = "{REPO}", features = ["alloc"] }}\n' + ('' if member else '\n[profile.dev]\ndebug = false\nincremental = false\n\n[workspace]\n'))
+    if not member:
+        shutil.copy(os.path.join(REPO, 'Cargo.lock'), os.path.join(dirp, 'Cargo.lock'))
     lines = [PRELUDE.rstrip('\n')]
     line_no = len(PRELUDE.rstrip('\n').split('\n'))
     ranges = []
@@ -322,24 +323,32 @@ def primary_loc(span, srcfile):
     return None
 
 
-def compile_crate(dirp, ranges, target):
+def compile_crate(dirp, ranges, target, name=None, stdout=None):
     env = env_base()
     env['CARGO_TARGET_DIR'] = target
-    p = subprocess.run(['cargo', 'check', '--offline', '--message-format=json', '-q'], cwd=dirp, env=env, stdout=subprocess.PIPE, stderr=subprocess.PIPE, text=True)
+    name = name or os.path.basename(dirp)
+    if stdout is None:
+        p = subprocess.run(['cargo', 'check', '--offline', '--message-format=json', '-q'], cwd=dirp, env=env, stdout=subprocess.PIPE, stderr=subprocess.PIPE, text=True)
+        stdout, rc, stderr = p.stdout, p.returncode, p.stderr
+    else:
+        rc, stderr = 0, ''
     verdict = {id(r[2]): set() for r in ranges}
     msgs = {id(r[2]): [] for r in ranges}
     unattributed = []
     starts = [r[0] for r in ranges]
     import bisect
     got_any = False
-    for line in p.stdout.splitlines():
+    for line in stdout.splitlines():
         try:
             m = json.loads(line)
         except Exception:
             continue
         if m.get('reason') != 'compiler-message':
             continue
-        if m.get('target', {}).get('name', '').replace('-', '_') not in (os.path.basename(dirp), os.path.basename(dirp).replace('-', '_')):
+        tname = m.get('target', {}).get('name', '').replace('-', '_')
+        if tname.startswith('c12_') and tname != name:
+            continue   # another member of the corpus workspace
+        if tname != name:
             # a diagnostic in a dependency (the crate under test itself failing to build) is a machinery problem
             if m['message'].get('level') == 'error':
                 unattributed.append('dependency: ' + m['message'].get('message', '')[:200])
@@ -376,8 +385,8 @@ def compile_crate(dirp, ranges, target):
                 continue
             verdict[id(ranges[k][2])].add(code)
             msgs[id(ranges[k][2])].append(f'{code}: {text[:140]}')
-    if p.returncode != 0 and not got_any:
-        raise Machinery(f'corpus crate {dirp} failed to build without attributable diagnostics:\n{p.stderr[-3000:]}')
+    if rc != 0 and not got_any:
+        raise Machinery(f'corpus crate {dirp} failed to build without attributable diagnostics:\n{stderr[-3000:]}')
     return verdict, msgs, unattributed
 
 
@@ -426,18 +435,26 @@ def run(part, tier):
     os.makedirs(cdir, exist_ok=True)
     verdict, msgs, unatt = {}, {}, []
 
-    def one(item):
-        name, ps = item
-        d = os.path.join(cdir, name)
-        shutil.rmtree(d, ignore_errors=True)
-        ranges = write_crate(d, ps, name)
-        return compile_crate(d, ranges, target)
-
-    with ThreadPoolExecutor(max_workers=min(len(groups), NCPU)) as ex:
-        for v, m, u in ex.map(one, groups.items()):
-            verdict.update(v)
-            msgs.update(m)
-            unatt += u
+    ws = os.path.join(cdir, 'c12')
+    shutil.rmtree(ws, ignore_errors=True)
+    os.makedirs(ws)
+    rng = {}
+    for name, ps in groups.items():
+        rng[name] = write_crate(os.path.join(ws, name), ps, name, member=True)
+    with open(os.path.join(ws, 'Cargo.toml'), 'w') as f:
+        f.write('[workspace]\nresolver = "2"\nmembers = [' + ', '.join(f'"{n}"' for n in groups) + ']\n\n[profile.dev]\ndebug = false\nincremental = false\n')
+    shutil.copy(os.path.join(REPO, 'Cargo.lock'), os.path.join(ws, 'Cargo.lock'))
+    env = env_base()
+    env['CARGO_TARGET_DIR'] = target
+    pc = subprocess.run(['cargo', 'check', '--offline', '--message-format=json', '-q', '--workspace', '--keep-going'], cwd=ws, env=env, stdout=subprocess.PIPE, stderr=subprocess.PIPE, text=True)
+    if '"reason":"compiler-message"' not in pc.stdout and pc.returncode != 0:
+        raise Machinery('corpus workspace failed to build without diagnostics:\n' + pc.stderr[-3000:])
+    for name in groups:
+        v, m, u = compile_crate(os.path.join(ws, name), rng[name], target, name=name, stdout=pc.stdout)
+        verdict.update(v)
+        msgs.update(m)
+        unatt += u
+    unatt = sorted(set(unatt))
     if unatt:
         raise Machinery('compiler errors that could not be attributed to a corpus program: ' + '; '.join(unatt[:5]))
     viols, stats = judge(progs, verdict, msgs)
